@@ -8,6 +8,7 @@ import signal
 import subprocess
 import struct
 import sys
+import threading
 import time
 
 from ref import codec
@@ -52,6 +53,7 @@ def _hook(event, args):
 
 def shards(tier, seed):
     out = [{"ndumps": NDUMPS[tier]} for _ in range(NSH[tier])]
+    out.append({"kind": "inprocess"})
     out.append({"kind": "deep", "depths": [300, 5000, 400000] if tier == "quick" else [300, 3000, 20000, 100000, 400000, 1000000]})
     return out
 
@@ -423,9 +425,157 @@ def abuse_streams(rng, g):
     return out
 
 
+def run_inprocess(spec):
+    """loads() in a process that does other things with execnet: other threads are loading at the same time, a gateway is
+    (or was) at work. What a load returns and what it leaves behind must not depend on any of that."""
+    import gc
+
+    from vlib import imodel
+
+    res = Result()
+    rng = core.rng_for("C13p", spec["tier"], spec["seed"], spec["shard"])
+    g = values.Gen(rng, max_bytes=200, huge_ints=False, max_depth=3)
+    signal.signal(signal.SIGALRM, _alarm)
+    sys.addaudithook(_hook)
+    L = Loader(res)
+    execnet = L.execnet
+
+    def outcome(data, **kw):
+        try:
+            return ("ok", repr(values.canon(execnet.loads(data, **kw))))
+        except (execnet.DataFormatError, EOFError) as e:
+            return ("typed", type(e).__name__)
+        except BaseException as e:  # noqa
+            return ("untyped", type(e).__name__)
+
+    def longint(ndigits, op=b"H"):
+        d = (b"7" * ndigits)
+        return b"\x02" + op + struct.pack("!i", len(d)) + d + b"Q"
+
+    CH = codec.OPC["CHANNEL"]
+    chan_inputs = [b"\x02" + CH + struct.pack("!i", cid) + b"Q" for cid in (1, 3, 5, 2**31 - 1, -1)]
+    chan_inputs += [b"\x02" + CH + struct.pack("!i", 7) + CH + struct.pack("!i", 9) + b"@" + struct.pack("!i", 2) + b"Q"]
+
+    # ---- (A) several threads load at once, with pre-emption inside the loader
+    inputs = [codec.encode(g.value(2)) for _ in range(20)]
+    inputs += [longint(n, op) for n in (1, 100, 4300, 4301, 5000, 9000) for op in (b"H", b"I")]
+    inputs += chan_inputs + [b"\x02", b"", b"\x02Q", b"\x02K\x7f\xff\xff\xff"[:5]]
+    expected = {d: outcome(d) for d in inputs}
+    tracked = lambda: {k: v for k, v in L.interpreter_state().items() if k not in ("threads", "trace")}
+    state0 = tracked()
+    pre = imodel.Preempt(core.REPO_SRC)
+    pre.install()
+    try:
+        for rnd in range(6 if spec["tier"] == "quick" else 200):
+            T = rng.choice((2, 3, 4))
+            mism: list = []
+            stop = threading.Event()
+
+            def worker(seed):
+                r = __import__("random").Random(seed)
+                for _ in range(60):
+                    d = r.choice(inputs)
+                    o = outcome(d)
+                    if o != expected[d]:
+                        mism.append((d, o, expected[d]))
+
+            transient: list = []
+
+            def sampler():
+                while not stop.is_set():
+                    now = tracked()
+                    if now != state0 and not transient:
+                        transient.append({k: (state0[k], now[k]) for k in now if now[k] != state0[k]})
+                    time.sleep(0)
+
+            pre.set_noise(rng.getrandbits(32), rng.choice((0.02, 0.1, 0.3)))
+            ths = [threading.Thread(target=worker, args=(rng.getrandbits(32),)) for _ in range(T)]
+            st = threading.Thread(target=sampler)
+            st.start()
+            for t in ths:
+                t.start()
+            for t in ths:
+                t.join(120)
+            stop.set()
+            st.join(10)
+            pre.off()
+            res.count("concurrent_load_rounds")
+            res.count("concurrent_loads", T * 60)
+            res.case(core.h64("concurrent-loads", rnd, T))
+            if mism:
+                d, o, e = mism[0]
+                res.violation("loads-outcome-depends-on-concurrent-loads", f"{o} instead of {e} for hex={d.hex()[:120]} ({len(d)} bytes) while {T - 1} other threads were loading")
+            if transient:
+                res.violation("loads-changed-interpreter-state:" + ",".join(sorted(transient[0])) + ":while-loading", f"{transient[0]} seen from another thread while {T} threads were loading")
+            now = tracked()
+            if now != state0:
+                changed = {k: (state0[k], now[k]) for k in now if now[k] != state0[k]}
+                res.violation("loads-changed-interpreter-state:" + ",".join(sorted(changed)), f"{changed} after {T} threads loaded concurrently")
+                if "int_max_str_digits" in changed:
+                    sys.set_int_max_str_digits(state0["int_max_str_digits"])
+                state0 = tracked()
+            if res.enough(3):
+                break
+    finally:
+        pre.uninstall()
+
+    # ---- (B) a gateway at work in this process: items for a channel of which only the callback is left, channels inside
+    # items, string coercion switched on a channel and on the gateway - and loads() still never makes a channel
+    def probe(when):
+        for d in chan_inputs:
+            L.seen.discard(d)
+            L.check(d, "channel_opcode_beside_gateway")
+            o = outcome(d)
+            if o != expected[d]:
+                res.violation("loads-outcome-depends-on-gateway-activity", f"{when}: {o} instead of {expected[d]} for hex={d.hex()}")
+        for d in inputs[:20]:
+            o = outcome(d)
+            if o != expected[d]:
+                res.violation("loads-outcome-depends-on-gateway-activity", f"{when}: {o} instead of {expected[d]} for hex={d.hex()[:120]}")
+        res.count("probes_beside_a_gateway")
+
+    group = execnet.Group()
+    try:
+        gw = group.makegateway("popen")
+        probe("gateway just made")
+        items: list = []
+        ch = gw.remote_exec("import time\ntime.sleep(0.3)\nchannel.send([1, 'x'])\nchannel.send(channel.gateway.newchannel())\nchannel.send('done')")
+        ch.setcallback(items.append)
+        del ch
+        gc.collect()
+        t_end = time.monotonic() + 20
+        while len(items) < 3 and time.monotonic() < t_end:
+            time.sleep(0.02)
+        if len(items) < 3:
+            res.inconclusive.append(f"callback-only channel got {len(items)} of 3 items")
+        probe("after items for a callback-only channel")
+        ch = gw.remote_exec("c = channel.receive()\nc.send(b'bytes')\nchannel.send(channel.receive())")
+        ch.reconfigure(py2str_as_py3str=False, py3str_as_py2str=True)
+        sub = gw.newchannel()
+        ch.send(sub)
+        sub.receive(20)
+        ch.send("text")
+        ch.receive(20)
+        ch.waitclose(20)
+        gw.reconfigure(py2str_as_py3str=False, py3str_as_py2str=True)
+        gw.remote_exec("channel.send('x')").receive(20)
+        probe("after a channel and the gateway were reconfigured")
+        gw.exit()
+        gw.join(10)
+        probe("after the gateway exited")
+    except BaseException as e:  # noqa
+        res.inconclusive.append(f"gateway phase: {type(e).__name__}: {e}")
+    finally:
+        group.terminate(2.0)
+    probe("after the group was terminated")
+    return res
+
+
 def run_shard(spec):
     if spec.get("kind") == "deep":
         return run_deep(spec)
+    if spec.get("kind") == "inprocess":
+        return run_inprocess(spec)
     res = Result()
     rng = core.rng_for("C13", spec["tier"], spec["seed"], spec["shard"])
     g = values.Gen(rng, max_bytes=200, huge_ints=False, max_depth=4)
